@@ -145,16 +145,16 @@ Variables: 0 = first parameter, …; attribute 0 = `_deg`, attribute 1 = `_x`. -
 /-- `def set(self, deg): deg[0] = degrees(deg[0]); self._deg = …` — the defect fixed by commit 6a9fdb4
 (`Angle([x], radians=True)` overwrote the caller's list element). -/
 def exPreFix : Program := ⟨2, [
-  ⟨"set", 2, 3, blk [.setitem 1 2, .store 0 (.field 0) 2], .mutator, ⟨[0], true, .scal⟩⟩]⟩
+  ⟨"set", 2, 3, blk [.setitem 1 2, .store 0 (.field 0) 2], .mutator, ⟨[0], true, true, .scal⟩⟩]⟩
 /-- the repaired version: reads `deg[0]` into a local, writes `self` only -/
 def exPostFix : Program := ⟨2, [
-  ⟨"set", 2, 3, blk [.load 2 1 .elem, .scalar 2, .store 0 (.field 0) 2], .mutator, ⟨[0], true, .scal⟩⟩]⟩
+  ⟨"set", 2, 3, blk [.load 2 1 .elem, .scalar 2, .store 0 (.field 0) 2], .mutator, ⟨[0], true, true, .scal⟩⟩]⟩
 
 example : check exPreFix = false := by decide
 example : check exPostFix = true := by decide
 /-- not even the weaker summary "writes self and the list" passes for a documented mutator -/
 example : check ⟨2, [⟨"set", 2, 3, blk [.setitem 1 2, .store 0 (.field 0) 2], .mutator,
-    ⟨[0, 1], true, .scal⟩⟩]⟩ = false := by decide
+    ⟨[0, 1], true, true, .scal⟩⟩]⟩ = false := by decide
 
 /-- the pre-fix program really has an execution that changes the caller's list: the semantics can
 express the defect (heap: object 0 = self, object 1 = the list). -/
@@ -168,42 +168,74 @@ theorem prefix_mutates_argument :
 
 /-- A copy constructor that shares the list (`self._x = other._x`) is accepted on its own … -/
 def exShare : FunDecl :=
-  ⟨"__init__", 2, 3, blk [.load 2 1 (.field 1), .store 0 (.field 1) 2], .mutator, ⟨[0], false, .scal⟩⟩
+  ⟨"__init__", 2, 3, blk [.load 2 1 (.field 1), .store 0 (.field 1) 2], .mutator, ⟨[0], false, true, .scal⟩⟩
 /-- … a mutator that rebinds before appending (`self._x = []; self._x.append(v)`) is accepted … -/
 def exRebind : FunDecl :=
   ⟨"set", 2, 4, blk [.new 2, .store 0 (.field 1) 2, .load 3 0 (.field 1), .append 3 1], .mutator,
-    ⟨[0], false, .scal⟩⟩
+    ⟨[0], false, true, .scal⟩⟩
 /-- … but one that appends in place (`self._x.append(v)`) is rejected: with the sharing constructor it
 would change the copy's source. -/
 def exInPlace : FunDecl :=
-  ⟨"add", 2, 4, blk [.load 3 0 (.field 1), .append 3 1], .mutator, ⟨[0], false, .scal⟩⟩
+  ⟨"add", 2, 4, blk [.load 3 0 (.field 1), .append 3 1], .mutator, ⟨[0], false, true, .scal⟩⟩
 
 example : check ⟨2, [exShare, exRebind]⟩ = true := by decide
 example : check ⟨2, [exShare, exInPlace]⟩ = false := by decide
 /-- a copying constructor (`self._x = list(other._x)`) keeps the new object closed -/
 example : check ⟨2, [⟨"__init__", 2, 5, blk [.load 2 1 (.field 1), .new 3, .load 4 2 .elem,
-    .scalar 4, .store 3 .elem 4, .store 0 (.field 1) 3], .mutator, ⟨[0], true, .scal⟩⟩]⟩ = true := by decide
+    .scalar 4, .store 3 .elem 4, .store 0 (.field 1) 3], .mutator, ⟨[0], true, true, .scal⟩⟩]⟩ = true := by decide
 
 /-- an operator building a new object from two operands (`__add__`): accepted, result new -/
-example : check ⟨2, [⟨"__init__", 2, 3, blk [.scalar 2, .store 0 (.field 0) 2], .mutator, ⟨[0], true, .scal⟩⟩,
-    ⟨"__add__", 2, 5, blk [.new 2, .call 3 0 [2, 4], .ret 2], .pure, ⟨[], true, .closed⟩⟩]⟩ = true := by decide
+example : check ⟨2, [⟨"__init__", 2, 3, blk [.scalar 2, .store 0 (.field 0) 2], .mutator, ⟨[0], true, true, .scal⟩⟩,
+    ⟨"__add__", 2, 5, blk [.new 2, .call 3 0 [2, 4], .ret 2], .pure, ⟨[], true, true, .closed⟩⟩]⟩ = true := by decide
 /-- an "operator" that updates its left operand in place: rejected -/
 example : check ⟨2, [⟨"__iadd__", 2, 3, blk [.scalar 2, .store 0 (.field 0) 2, .ret 0], .pure,
-    ⟨[0], true, .param 0⟩⟩]⟩ = false := by decide
+    ⟨[0], true, true, .param 0⟩⟩]⟩ = false := by decide
 /-- a function that writes into a module-level table: rejected whatever summary is proposed -/
-example : check ⟨2, [⟨"f", 0, 2, blk [.global 0 7, .scalar 1, .setitem 0 1], .pure, ⟨[], true, .scal⟩⟩]⟩
+example : check ⟨2, [⟨"f", 0, 2, blk [.global 0 7, .scalar 1, .setitem 0 1], .pure, ⟨[], true, true, .scal⟩⟩]⟩
     = false := by decide
 /-- calling a mutator on a tuple element of a callee's fresh result is fine
 (`lon, lat = g(); lon.to_positive()`), on an element of a parameter it is not -/
 example : check ⟨2, [
-    ⟨"to_positive", 1, 2, blk [.scalar 1, .store 0 (.field 0) 1, .ret 0], .mutator, ⟨[0], true, .param 0⟩⟩,
-    ⟨"g", 0, 3, blk [.new 0, .new 1, .append 0 1, .ret 0], .pure, ⟨[], true, .closed⟩⟩,
-    ⟨"f", 0, 4, blk [.call 0 1 [], .load 1 0 .elem, .call 2 0 [1], .ret 2], .pure, ⟨[], true, .closed⟩⟩]⟩
+    ⟨"to_positive", 1, 2, blk [.scalar 1, .store 0 (.field 0) 1, .ret 0], .mutator, ⟨[0], true, true, .param 0⟩⟩,
+    ⟨"g", 0, 3, blk [.new 0, .new 1, .append 0 1, .ret 0], .pure, ⟨[], true, true, .closed⟩⟩,
+    ⟨"f", 0, 4, blk [.call 0 1 [], .load 1 0 .elem, .call 2 0 [1], .ret 2], .pure, ⟨[], true, true, .closed⟩⟩]⟩
     = true := by decide
 example : check ⟨2, [
-    ⟨"to_positive", 1, 2, blk [.scalar 1, .store 0 (.field 0) 1, .ret 0], .mutator, ⟨[0], true, .param 0⟩⟩,
-    ⟨"f", 1, 4, blk [.load 1 0 .elem, .call 2 0 [1], .ret 2], .pure, ⟨[], true, .any⟩⟩]⟩
+    ⟨"to_positive", 1, 2, blk [.scalar 1, .store 0 (.field 0) 1, .ret 0], .mutator, ⟨[0], true, true, .param 0⟩⟩,
+    ⟨"f", 1, 4, blk [.load 1 0 .elem, .call 2 0 [1], .ret 2], .pure, ⟨[], true, true, .any⟩⟩]⟩
     = false := by decide
+
+/-! ### Temporaries may hold anything; objects hung from a parameter may not
+
+A summary with `keeps = true` lets callers keep treating their new objects as closed.  The function may fill
+its own temporaries with arbitrary references (a generator expression over a parameter, an options dict)
+as long as no object allocated by it is reachable from a parameter's object (`exposes = false`: only scalars
+are stored there). -/
+
+/-- `def set(self, pieces): tmp = [p for p in pieces]; self._deg = <number>`: accepted with `keeps`, not exposing -/
+example : check ⟨2, [⟨"set", 2, 5, blk [.new 2, .load 3 1 .elem, .append 2 3, .scalar 4, .store 0 (.field 0) 4],
+    .mutator, ⟨[0], true, false, .scal⟩⟩]⟩ = true := by decide
+/-- … so a caller may still mutate an element of a tuple of such objects returned by a callee -/
+example : check ⟨2, [
+    ⟨"set", 2, 5, blk [.new 2, .load 3 1 .elem, .append 2 3, .scalar 4, .store 0 (.field 0) 4], .mutator,
+      ⟨[0], true, false, .scal⟩⟩,
+    ⟨"pair", 1, 4, blk [.new 1, .call 2 0 [1, 0], .new 3, .append 3 1, .ret 3], .pure, ⟨[], true, false, .closed⟩⟩,
+    ⟨"use", 1, 5, blk [.call 1 1 [0], .load 2 1 .elem, .call 3 0 [2, 0], .ret 2], .pure, ⟨[], true, false, .closed⟩⟩]⟩
+    = true := by decide
+/-- `self._x = []` needs `exposes`; claiming "scalars only" is refused -/
+example : check ⟨2, [⟨"set", 1, 3, blk [.new 1, .store 0 (.field 1) 1], .mutator, ⟨[0], true, false, .scal⟩⟩]⟩ = false := by
+  decide
+example : check ⟨2, [⟨"set", 1, 3, blk [.new 1, .store 0 (.field 1) 1], .mutator, ⟨[0], true, true, .scal⟩⟩]⟩ = true := by
+  decide
+/-- `self._x = t; t.append(old)`: once `t` hangs from `self`, putting an old reference into it breaks `keeps` -/
+example : check ⟨2, [⟨"set", 2, 4, blk [.new 2, .store 0 (.field 1) 2, .append 2 1], .mutator,
+    ⟨[0], true, true, .scal⟩⟩]⟩ = false := by decide
+/-- the other order is caught as well: the temporary is no longer `closed` when it is hung from `self` -/
+example : check ⟨2, [⟨"set", 2, 4, blk [.new 2, .append 2 1, .store 0 (.field 1) 2], .mutator,
+    ⟨[0], true, true, .scal⟩⟩]⟩ = false := by decide
+/-- … both are fine for a summary that does not promise `keeps` (its callers then stop trusting closedness) -/
+example : check ⟨2, [⟨"set", 2, 4, blk [.new 2, .store 0 (.field 1) 2, .append 2 1], .mutator,
+    ⟨[0], false, true, .scal⟩⟩]⟩ = true := by decide
 
 /-! ### Hidden module-level state (the shapes of the seeded changes C19-c, C20-c, C01-c, C07-c, C10-c)
 
@@ -216,35 +248,35 @@ such a function is rejected; only reading the state is accepted.
 /-- `class Epoch: _leap_years = {}` … `Epoch._leap_years[cycle] = leap; return Epoch._leap_years[cycle]`
 in a static method (C19-c): a store into the class-level dict (module-level object 5) -/
 example : check ⟨2, [⟨"is_leap", 1, 4, blk [.global 1 5, .scalar 2, .setitem 1 2, .global 1 5, .load 3 1 .elem, .ret 3],
-    .pure, ⟨[], true, .any⟩⟩]⟩ = false := by decide
+    .pure, ⟨[], true, true, .any⟩⟩]⟩ = false := by decide
 example : check ⟨2, [⟨"is_leap", 1, 4, blk [.global 1 5, .scalar 2, .setitem 1 2, .global 1 5, .load 3 1 .elem, .ret 3],
-    .pure, ⟨[], false, .any⟩⟩]⟩ = false := by decide
+    .pure, ⟨[], false, true, .any⟩⟩]⟩ = false := by decide
 /-- only reading the class-level dict is fine -/
-example : check ⟨2, [⟨"is_leap", 1, 4, blk [.global 1 5, .load 3 1 .elem, .ret 3], .pure, ⟨[], true, .any⟩⟩]⟩ = true := by
+example : check ⟨2, [⟨"is_leap", 1, 4, blk [.global 1 5, .load 3 1 .elem, .ret 3], .pure, ⟨[], true, true, .any⟩⟩]⟩ = true := by
   decide
 /-- `f._last = (t, value)` / `last = f._last` (C20-c): the function object is module-level state -/
 example : check ⟨2, [⟨"nutation_longitude", 1, 4, blk [.global 1 0, .load 2 1 (.field 1), .new 3, .global 1 0,
-    .store 1 (.field 1) 3, .ret 2], .pure, ⟨[], false, .any⟩⟩]⟩ = false := by decide
+    .store 1 (.field 1) 3, .ret 2], .pure, ⟨[], false, true, .any⟩⟩]⟩ = false := by decide
 /-- `global COUNT; COUNT = x`: a store into the module namespace -/
-example : check ⟨2, [⟨"f", 1, 3, blk [.global 1 0, .store 1 (.field 0) 0], .pure, ⟨[], false, .scal⟩⟩]⟩ = false := by
+example : check ⟨2, [⟨"f", 1, 3, blk [.global 1 0, .store 1 (.field 0) 0], .pure, ⟨[], false, true, .scal⟩⟩]⟩ = false := by
   decide
 /-- `TABLE.append(x)`, `TABLE.pop()`, `TABLE.sort()`, `TABLE.clear()`, `CACHE.update(..)`, `TABLE[i] = x`,
 `del TABLE[i]` on a module-level container (C01-c, C07-c, C10-c): all are element stores -/
-example : check ⟨2, [⟨"f", 1, 3, blk [.global 1 3, .append 1 0], .pure, ⟨[], false, .scal⟩⟩]⟩ = false := by decide
+example : check ⟨2, [⟨"f", 1, 3, blk [.global 1 3, .append 1 0], .pure, ⟨[], false, true, .scal⟩⟩]⟩ = false := by decide
 example : check ⟨2, [⟨"f", 1, 3, blk [.global 1 3, .load 2 1 .elem, .scalar 0, .setitem 1 0, .ret 2], .pure,
-    ⟨[], false, .any⟩⟩]⟩ = false := by decide
+    ⟨[], false, true, .any⟩⟩]⟩ = false := by decide
 /-- … while working on a local copy (`t = list(TABLE); t.append(x); t.sort()`) is accepted -/
 example : check ⟨2, [⟨"f", 1, 5, blk [.global 1 3, .new 2, .load 3 1 .elem, .store 2 .elem 3, .append 2 0, .ret 2], .pure,
-    ⟨[], false, .fresh⟩⟩]⟩ = true := by decide
+    ⟨[], false, true, .fresh⟩⟩]⟩ = true := by decide
 /-- `setattr(o, name, x)` on a parameter: a store into the parameter's object, which a side-effect-free
 function may not do (the translator gives up on `setattr` and emits a store to unknown state) -/
-example : check ⟨2, [⟨"f", 2, 3, blk [.store 0 .elem 1], .pure, ⟨[0], false, .scal⟩⟩]⟩ = false := by decide
-example : check ⟨2, [⟨"f", 2, 4, blk [.global 3 0, .store 3 .elem 2], .pure, ⟨[], false, .scal⟩⟩]⟩ = false := by decide
+example : check ⟨2, [⟨"f", 2, 3, blk [.store 0 .elem 1], .pure, ⟨[0], false, true, .scal⟩⟩]⟩ = false := by decide
+example : check ⟨2, [⟨"f", 2, 4, blk [.global 3 0, .store 3 .elem 2], .pure, ⟨[], false, true, .scal⟩⟩]⟩ = false := by decide
 /-- `def f(x, acc=[]): acc.append(x); return acc`: the function writes its parameter `acc`, and the default
 object is one module-level object shared by every call that omits the argument -/
-example : check ⟨2, [⟨"f", 2, 3, blk [.append 1 0, .ret 1], .pure, ⟨[1], false, .param 1⟩⟩]⟩ = false := by decide
-example : check ⟨2, [⟨"_f", 2, 3, blk [.append 1 0, .ret 1], .helper, ⟨[1], false, .param 1⟩⟩,
-    ⟨"caller", 1, 4, blk [.global 1 0, .call 2 0 [0, 1], .ret 2], .pure, ⟨[], false, .any⟩⟩]⟩ = false := by decide
+example : check ⟨2, [⟨"f", 2, 3, blk [.append 1 0, .ret 1], .pure, ⟨[1], false, true, .param 1⟩⟩]⟩ = false := by decide
+example : check ⟨2, [⟨"_f", 2, 3, blk [.append 1 0, .ret 1], .helper, ⟨[1], false, true, .param 1⟩⟩,
+    ⟨"caller", 1, 4, blk [.global 1 0, .call 2 0 [0, 1], .ret 2], .pure, ⟨[], false, true, .any⟩⟩]⟩ = false := by decide
 
 /-- heap with the source object 0 (attribute 1 -> list 1) and its list 1 -/
 def exHeap : Heap := ⟨2, fun i k => if i = 0 ∧ k = 1 then .ref 1 else .scalar⟩
